@@ -233,6 +233,8 @@ def run_rows(prop, rows, tier, seed, mons, vacuity=(), extra_assumptions=(), fun
                 except mp.TimeoutError:
                     out_of_time = True
                     break
+                if time.time() - t0 > budget:
+                    out_of_time = True
                 if "fatal" in res:
                     fatal.append(res["fatal"])
                     continue
@@ -244,6 +246,8 @@ def run_rows(prop, rows, tier, seed, mons, vacuity=(), extra_assumptions=(), fun
                     t["sample_paths"] = 1 if len(nxt) % 6 == 0 else 0
                     per_row.setdefault(key, []).append(t)
                     nxt.append(t)
+                if out_of_time:
+                    break
             if out_of_time:
                 fatal.append("time budget of %.0f s exceeded: exploration stopped, the rows are not exhausted (violations found so far are still reported)" % budget)
                 pool.terminate()
